@@ -396,6 +396,21 @@ func (g *Gen) FindOpts(o *Op) {
 		o.Limit = g.R.Range(0, 3)
 		g.hit("find:skip/limit")
 	}
+	// boundary values: "no limit" written as a huge number, a skip past every document. skip + limit must not be
+	// computed in machine integers (store.Find did: the sum wrapped to a negative number and the slice expression
+	// panicked – corpus/C10/07-skip-plus-huge-limit.ops).
+	huge := []int{math.MaxInt, math.MaxInt - 1, 1 << 62, math.MaxInt32 + 1}
+	if g.R.Chance(1, 12) {
+		o.Limit = lib.Pick(g.R, huge)
+		if o.Skip == 0 && g.R.Chance(2, 3) {
+			o.Skip = g.R.Range(1, 3)
+		}
+		g.hit("find:huge-limit")
+	}
+	if g.R.Chance(1, 20) {
+		o.Skip = lib.Pick(g.R, huge)
+		g.hit("find:huge-skip")
+	}
 }
 
 // IndexSpec draws an index over {a, b, n.x}: single or compound, unique or not, partial or not.
